@@ -37,6 +37,17 @@
               a sample that reaches the sink by another route (a placeholder on the source-stopped path, a
               default substituted for None, a cached value re-sent, a sample sent by the coordinator's
               error handling) is outside all of them.
+  C08.OWN     "the received samples" are those of ONE source: the buffer (and source properties) a window
+              is cut from belongs to exactly one registration.  On every path of every function that
+              constructs the per-series streaming helper (the class whose constructor takes the resampling
+              helper, the source and the sink), the argument in the helper role is a resampling helper
+              constructed on that path for this construction - one construction per streaming helper -
+              and it does not escape (stored in an attribute / container, handed to another call, returned)
+              except into a container keyed by the very expression handed in the source role; a helper that
+              is looked up is accepted only under that same key.  The helper's constructor creates an empty
+              buffer and new source properties on every path; the streaming helper's helper attribute is
+              written by its constructor only, from the parameter; nobody re-binds helper / buffer / source
+              properties of another object.
 """
 from __future__ import annotations
 
@@ -938,6 +949,331 @@ def check_sink(run: Run, prog: Program) -> None:  # noqa: C901
         raise AnalysisError(f"{sh.qual}: no call site of the sink found in the tick function or its helpers")
 
 
+# ---------------------------------------------------------------------------------------------- C08.OWN
+_OWN_MSG = ("EDGE / AGE / FILTER / NONE are proved for one buffer fed by one receive loop: `the received valid samples` of "
+            "a timeseries are those of its own source only if the resampling helper (sample buffer + source properties: "
+            "received count, first timestamp, input-period estimate) that its streaming helper appends to and cuts the "
+            "window from is owned by exactly this registration - constructed for it, or kept under the identity the "
+            "registry itself uses (the source).  A helper reached through a key that two sources can share (a name that is "
+            "documented as logging-only, the sink, the config), kept after the timeseries was removed and handed to another "
+            "source, shared as a default / class / module level object, or re-bound from outside makes every such timeseries "
+            "be resampled from the interleaved mix of all their samples: the value for tick T is not the function applied "
+            "to the samples received from its source, it is not None when its own relevant set is empty, and the "
+            "input-period estimate and the buffer length are computed from the mix as well.")
+_LOOKUPS = {"get", "pop", "setdefault", "__getitem__"}
+
+
+def _ann_tail(e: ast.AST | None) -> str:
+    return u(e).strip("'\"").split("[")[0].split(".")[-1] if e is not None else ""
+
+
+def _role_params(cls: ClassInfo, annotation: str, fallback: str) -> list[str]:
+    """Constructor parameters of `cls` in a role: annotated `annotation` (or, without annotations, named `fallback`)."""
+    init = cls.methods.get("__init__")
+    if init is None:
+        raise AnalysisError(f"{cls.qual}: no constructor (its parameters cannot be bound by role)")
+    a = init.node.args
+    params = a.posonlyargs + a.args + a.kwonlyargs
+    return [p.arg for p in params if _ann_tail(p.annotation) == annotation] or [p.arg for p in params if p.arg == fallback]
+
+
+def _is_ctor(e: ast.AST | None, cls: ClassInfo) -> bool:
+    return isinstance(e, ast.Call) and u(e.func).split(".")[-1] == cls.name
+
+
+def _mentions(e: ast.AST | None, texts: set[str]) -> bool:
+    """`e` evaluates to / contains (in a display, a conditional, a subscript ...) one of the helper
+    constructions `texts`; the arguments of inner calls are not entered - those calls are effects of their own."""
+    stack = [e] if e is not None else []
+    while stack:
+        n = stack.pop()
+        if isinstance(n, ast.Call):
+            if u(n) in texts:
+                return True
+            continue
+        if isinstance(n, (ast.Lambda, ast.Attribute)):
+            continue        # deferred / a read of one field of the helper, not the helper
+        stack.extend(ast.iter_child_nodes(n))
+    return False
+
+
+def _lookup(e: ast.AST) -> tuple[ast.AST, ast.AST | None, ast.AST | None] | None:
+    """(container, key, default) when `e` reads an element of a container: c[k], c.get(k[, d]), c.pop(k[, d]),
+    c.setdefault(k, d)."""
+    if isinstance(e, ast.Subscript):
+        return e.value, e.slice, None
+    if isinstance(e, ast.Call) and isinstance(e.func, ast.Attribute) and e.func.attr in _LOOKUPS and not e.keywords \
+            and not any(isinstance(a, ast.Starred) for a in e.args):
+        return e.func.value, (e.args[0] if e.args else None), (e.args[1] if len(e.args) > 1 else None)
+    return None
+
+
+def _self_rooted_expr(e: ast.AST) -> bool:
+    n = e
+    while isinstance(n, (ast.Attribute, ast.Subscript)):
+        n = n.value
+    return isinstance(n, ast.Name) and n.id == "self" and n is not e
+
+
+def check_own(run: Run, prog: Program) -> None:  # noqa: C901
+    stream, helper = prog.cls(STREAM), prog.cls(HELPER)
+    hps, sps = _role_params(stream, helper.name, "helper"), _role_params(stream, "Source", "source")
+    if len(hps) != 1 or len(sps) != 1:
+        raise AnalysisError(f"{stream.qual}: the constructor does not take exactly one resampling helper and one source "
+                            f"(helper parameters {hps}, source parameters {sps})")
+    hp, sp = hps[0], sps[0]
+    init_params = stream.methods["__init__"].params[1:]
+    helper_attrs = _role_attrs(stream, helper.name, "helper")
+    if not helper_attrs:
+        raise AnalysisError(f"{stream.qual}: the attribute holding the resampling helper was not found in the constructor")
+    mod = stream.module
+    mod_funcs = list(mod.functions.values()) + [m for c in mod.classes.values() for m in c.methods.values()]
+
+    # ---- (a) every construction of a streaming helper gets a resampling helper of its own
+    direct: dict[str, tuple[FuncInfo, list[ast.Call]]] = {}
+    for f in prog.all_functions():
+        sites = [c for c in ast.walk(f.node) if _is_ctor(c, stream)]
+        if sites:
+            direct[f.qual] = (f, sites)
+    if not direct:
+        raise AnalysisError(f"{stream.qual}: no construction site found (who registers a timeseries?)")
+    analysed: set[str] = set()
+    executed: set[str] = set()          # names of functions walked on a path (the function itself + helpers followed)
+    seen_lookup: list[tuple[FuncInfo, str]] = []     # containers a helper is accepted from (keyed by the source)
+    todo = [f for f, _s in direct.values()]
+    while todo:
+        f = todo.pop()
+        if f.qual in analysed:
+            continue
+        analysed.add(f.qual)
+        run.analysed(f.qual)
+        if f.qual in direct:
+            parents = parent_map(f.node)
+            for c in direct[f.qual][1]:
+                up = parents.get(c)
+                while up is not None and up is not f.node:
+                    if isinstance(up, (ast.For, ast.AsyncFor, ast.While, ast.ListComp, ast.SetComp, ast.DictComp,
+                                       ast.GeneratorExp, ast.Lambda, ast.FunctionDef, ast.AsyncFunctionDef)):
+                        raise AnalysisError(f"{f.qual}: a streaming helper is constructed inside a {type(up).__name__} (line "
+                                            f"{getattr(c, 'lineno', 0)}); the per-path rule C08.OWN cannot tie its resampling "
+                                            "helper to one construction")
+                    up = parents.get(up)
+        node = inline_helpers(prog, f)
+        body = list(node.body)
+        if body and isinstance(body[0], ast.Expr) and isinstance(body[0].value, ast.Constant) and isinstance(body[0].value.value, str):
+            body = body[1:]
+        se = SymExec(follow=follower(prog, f))
+        paths = [p for p, _st in se.block(Path(), body)]
+        executed |= {f.name} | set(getattr(node, "_spliced", ())) | set(se.followed)
+        fparams = set(f.params)
+        n_ctor = 0
+        to_callers = False
+        for p in paths:
+            where = dict(node=f.node, file=f.file, path=p.describe())
+            evals = [e.node for e in p.effects if e.kind == "call" and _is_ctor(e.node, helper)]
+            ctors = [e.node for e in p.effects if e.kind == "call" and _is_ctor(e.node, stream)]
+            texts = {u(e) for e in evals}
+            consumed: set[int] = set()
+            src_of: dict[str, set[str]] = {}      # helper construction text -> source-role expressions it was paired with
+            for sc in ctors:
+                assert isinstance(sc, ast.Call)
+                n_ctor += 1
+                if any(isinstance(a, ast.Starred) for a in sc.args) or any(k.arg is None for k in sc.keywords):
+                    raise AnalysisError(f"{f.qual}: `{u(sc)[:100]}` passes its arguments with */**; the helper role cannot be read")
+                a = positional(sc, init_params)
+                h, src = a.get(hp), a.get(sp)
+                if h is None or src is None:
+                    raise AnalysisError(f"{f.qual}: `{u(sc)[:100]}`: no argument in the helper / source role")
+                inst = f"{f.qual}: a streaming helper is constructed with a resampling helper of its own"
+                operands = list(h.values) if isinstance(h, ast.BoolOp) else [h]
+                for op in operands:
+                    if _is_ctor(op, helper):
+                        idx = next((i for i, e in enumerate(evals) if e is op), None)
+                        if idx is None:
+                            idx = next((i for i, e in enumerate(evals) if i not in consumed and u(e) == u(op)), None)
+                        if idx is None and any(u(e) == u(op) for e in evals):
+                            run.violation("C08.OWN", f.qual, u(sc)[:140],
+                                          f"the resampling helper `{u(op)[:80]}` constructed once on this path is handed to more than "
+                                          "one streaming helper: two sources append to one buffer. " + _OWN_MSG, **where)
+                            continue
+                        if idx is None:
+                            raise AnalysisError(f"{f.qual}: the construction `{u(op)[:80]}` handed to `{u(sc.func)}` is not "
+                                                "evaluated on the path")
+                        consumed.add(idx)
+                        src_of.setdefault(u(op), set()).add(u(src))
+                        run.ok("C08.OWN", inst)
+                        continue
+                    if isinstance(op, ast.Constant) and op.value is None and len(operands) > 1:
+                        continue
+                    if isinstance(op, ast.Name) and op.id.startswith("<"):
+                        raise AnalysisError(f"{f.qual}: the helper handed to `{u(sc.func)}` is bound in a loop / try body "
+                                            f"({op.id}); C08.OWN cannot tie it to one construction")
+                    if isinstance(op, ast.Name) and op.id in fparams:
+                        to_callers = True        # decided where the argument is made: in the callers, executed on their paths
+                        continue
+                    look = _lookup(op)
+                    if look is not None:
+                        cont, key, dflt = look
+                        by_source = key is not None and u(key) == u(src) and _self_rooted_expr(cont)
+                        if dflt is not None and _is_ctor(dflt, helper):
+                            src_of.setdefault(u(dflt), set()).add(u(src))
+                        if by_source:
+                            seen_lookup.append((f, u(cont)))
+                            run.ok("C08.OWN", f"{f.qual}: resampling helper kept under the source it belongs to")
+                            continue
+                        run.violation("C08.OWN", f.qual, u(sc)[:140],
+                                      f"the resampling helper handed to `{u(sc.func)}` is looked up, `{u(op)[:100]}`, under the key "
+                                      f"`{u(key)[:60] if key is not None else ''}`, which is not the source `{u(src)[:60]}` this "
+                                      "timeseries is registered under: whatever else is (or was) registered under the same key feeds "
+                                      "and reads the same buffer and source properties. " + _OWN_MSG, **where)
+                        continue
+                    if isinstance(op, ast.Call):
+                        raise AnalysisError(f"{f.qual}: the helper handed to `{u(sc.func)}` is the result of `{u(op.func)[:80]}(...)`, "
+                                            "which is not followed; C08.OWN cannot decide whether it is constructed for this "
+                                            "registration")
+                    run.violation("C08.OWN", f.qual, u(sc)[:140],
+                                  f"the resampling helper handed to `{u(sc.func)}` is `{u(op)[:100]}`: not a "
+                                  f"`{helper.name}` constructed for this registration (an attribute, a default, a module or "
+                                  "class level object outlives it and is shared by every timeseries that gets it). " + _OWN_MSG,
+                                  **where)
+            if not texts:
+                continue
+            # ---- the constructed helper goes to its streaming helper and nowhere else
+            for e in p.effects:
+                if e.kind == "call":
+                    c = e.node
+                    assert isinstance(c, ast.Call)
+                    if u(c) in texts:
+                        continue
+                    args = list(c.args) + [k.value for k in c.keywords]
+                    if _is_ctor(c, stream):
+                        role = positional(c, init_params)
+                        args = [x for x in args if x is not role.get(hp)]
+                    elif isinstance(c.func, ast.Attribute) and c.func.attr in ("setdefault", "__setitem__") and len(c.args) == 2 \
+                            and _self_rooted_expr(c.func.value) and _mentions(c.args[1], texts) \
+                            and all(src_of.get(t, set()) == {u(c.args[0])} for t in texts if _mentions(c.args[1], {t})):
+                        continue        # kept under the source it is paired with
+                    elif _is_logging(c):
+                        continue
+                    hit = next((x for x in args if _mentions(x, texts)), None)
+                    if hit is not None:
+                        run.violation("C08.OWN", f.qual, u(c)[:140],
+                                      f"the resampling helper constructed for this registration is also handed to `{u(c.func)[:80]}(...)`"
+                                      ": it escapes its registration and can be reached again for another source. " + _OWN_MSG, **where)
+                elif e.kind == "write":
+                    tgt, val = e.node.elts  # type: ignore[attr-defined]
+                    base = tgt
+                    while isinstance(base, (ast.Attribute, ast.Subscript)):
+                        base = base.value
+                    if isinstance(base, ast.Call) and u(base) in texts:
+                        run.violation("C08.OWN", f.qual, f"{u(tgt)[:100]} = {u(val)[:60]}",
+                                      "state of the newly constructed resampling helper is replaced from outside: its buffer / "
+                                      "source properties are then whatever object the caller supplies. " + _OWN_MSG, **where)
+                        continue
+                    if not _mentions(val, texts):
+                        continue
+                    mine = [t for t in texts if _mentions(val, {t})]
+                    keyed = isinstance(tgt, ast.Subscript) and _self_rooted_expr(tgt.value) \
+                        and all(src_of.get(t, set()) == {u(tgt.slice)} for t in mine)
+                    run.check(keyed, "C08.OWN", f.qual, f"{u(tgt)[:100]} = {u(val)[:80]}",
+                              f"the resampling helper constructed for this registration is also stored in `{u(tgt)[:100]}`"
+                              + (f", under the key `{u(tgt.slice)[:60]}` and not under the source "
+                                 f"`{', '.join(sorted(s for t in mine for s in src_of.get(t, set())))[:80]}` it is registered with"
+                                 if isinstance(tgt, ast.Subscript) else "")
+                              + ": it outlives the registration and the next timeseries that finds it there appends to and reads the "
+                              "same buffer. " + _OWN_MSG,
+                              instance=f"{f.qual}: the kept resampling helper is keyed by the source it is registered with", **where)
+            if p.ret is not None and _mentions(p.ret, texts):
+                run.violation("C08.OWN", f.qual, f"return {u(p.ret)[:100]}",
+                              "the resampling helper constructed for this registration is returned to the caller as well. "
+                              + _OWN_MSG, **where)
+        if not n_ctor:
+            raise AnalysisError(f"{f.qual}: no path constructs a `{stream.name}` (the construction is inside a helper that is "
+                                "not followed?)")
+        if to_callers:
+            callers = [c for c, _call in prog.callers(f.qual)]
+            if not callers:
+                run.violation("C08.OWN", f.qual, f"{stream.name}(<parameter>)",
+                              f"`{stream.name}` is constructed around a resampling helper that {f.qual} receives as a parameter and "
+                              "nothing in the package is seen to call it: the helper is not constructed for this registration. "
+                              + _OWN_MSG, node=f.node, file=f.file)
+            todo.extend(callers)
+    # a helper accepted because it is looked up under the source: everything stored in that container is judged above
+    for f, cont in seen_lookup:
+        for g in mod_funcs:
+            if g.name in executed:
+                continue
+            for n in ast.walk(g.node):
+                store = (isinstance(n, ast.Subscript) and isinstance(n.ctx, ast.Store) and u(n.value) == cont) or (
+                    isinstance(n, ast.Call) and isinstance(n.func, ast.Attribute) and u(n.func.value) == cont
+                    and n.func.attr in ("setdefault", "update", "__setitem__"))
+                if store:
+                    run.violation("C08.OWN", g.qual, n,
+                                  f"{f.qual} takes the resampling helper of a timeseries from `{cont}`, which is also filled in "
+                                  f"{g.qual}, outside the registration paths C08.OWN walks: what is kept there is not known to belong "
+                                  "to the source it is found under. " + _OWN_MSG, node=n, file=g.file)
+
+    # ---- (b) the helper's constructor starts from an empty buffer and new source properties on every path
+    hi = helper.methods.get("__init__")
+    if hi is None:
+        raise AnalysisError(f"{helper.qual}: no constructor (buffer / source properties cannot be shown to be per instance)")
+    run.analysed(hi.qual)
+
+    def new_buffer(v: ast.AST) -> bool:
+        return isinstance(v, ast.Call) and u(v.func).split(".")[-1] == "deque" \
+            and "iterable" not in positional(v, ["iterable", "maxlen"])
+
+    def new_props(v: ast.AST) -> bool:
+        return isinstance(v, ast.Call) and u(v.func).split(".")[-1] == "SourceProperties" \
+            and all(isinstance(x, ast.Constant) for x in list(v.args) + [k.value for k in v.keywords])
+
+    n_init = 0
+    for p in _paths(prog, hi):
+        if p.exit == "raise":
+            continue
+        n_init += 1
+        for loc, fresh, what in ((BUF, new_buffer, "an empty bounded deque"), (PROPS, new_props, "a new SourceProperties()")):
+            ws = [e for e in p.effects if e.kind == "write" and u(e.node.elts[0]) == loc]  # type: ignore[attr-defined]
+            ok = len(ws) == 1 and fresh(ws[0].node.elts[1])  # type: ignore[attr-defined]
+            shown = u(ws[0].node.elts[1])[:80] if ws else "never assigned"  # type: ignore[attr-defined]
+            run.check(ok, "C08.OWN", hi.qual, f"{loc} = {shown}",
+                      f"the constructor of the resampling helper does not bind `{loc}` to {what} created for this instance on this "
+                      f"path ({shown}): an object handed in, a default argument, a class or module level object is the same "
+                      "one for every helper that gets it. " + _OWN_MSG, node=hi.node, file=hi.file, path=p.describe(),
+                      instance=f"{hi.qual}: {loc} is created per instance")
+    if not n_init:
+        raise AnalysisError(f"{hi.qual}: no normal path")
+
+    # ---- (c) who may bind: the helper of a streaming helper, and buffer / properties of a helper, from inside only
+    guarded = set(helper_attrs) | {BUF.rsplit(".", 1)[1], PROPS.rsplit(".", 1)[1]}
+    sinit = stream.methods["__init__"]
+    for g in mod_funcs:
+        for n in ast.walk(g.node):
+            if not (isinstance(n, ast.Attribute) and isinstance(n.ctx, (ast.Store, ast.Del)) and n.attr in guarded):
+                continue
+            if u(n.value) != "self":
+                run.violation("C08.OWN", g.qual, n,
+                              f"`{u(n)}` is bound from outside the object it belongs to: the buffer / helper a timeseries is resampled "
+                              "from is replaced by one that another registration may own. " + _OWN_MSG, node=n, file=g.file)
+            elif g.cls is stream and n.attr in helper_attrs and g is not sinit:
+                run.violation("C08.OWN", g.qual, n,
+                              f"`{u(n)}` is re-bound after construction: the receive loop and the tick no longer use the helper "
+                              "this registration was constructed with. " + _OWN_MSG, node=n, file=g.file)
+    for s in ast.walk(sinit.node):
+        if isinstance(s, (ast.Assign, ast.AnnAssign)) and s.value is not None:
+            for t in (s.targets if isinstance(s, ast.Assign) else [s.target]):
+                if isinstance(t, ast.Attribute) and u(t.value) == "self" and t.attr in helper_attrs:
+                    run.check(isinstance(s.value, ast.Name) and s.value.id == hp, "C08.OWN", sinit.qual, s,
+                              f"`{u(t)}` is not bound to the `{hp}` argument alone: " + _OWN_MSG, node=s, file=sinit.file,
+                              instance=f"{sinit.qual}: the helper attribute is the constructor argument")
+
+
+def _is_logging(c: ast.Call) -> bool:
+    from ..engine.util import is_logging_call
+
+    return is_logging_call(c)
+
+
 CONTROLS = [
     ("bisect_left on the lower edge", MOD,
      "        min_index = bisect(\n", "        min_index = bisect_left(\n", "C08.EDGE"),
@@ -977,6 +1313,15 @@ CONTROLS = [
      "        self._resamplers[source] = resampler\n",
      "        self._resamplers[source] = resampler\n        asyncio.ensure_future(sink(Sample(self._window_end, None)))\n"
      "        asyncio.ensure_future(resampler._sink(Sample(self._window_end, None)))\n", "C08.SINK"),
+    ("resampling helper kept per (logging) name", MOD,
+     "            _ResamplingHelper(name, self._config), source, sink\n",
+     "            self._by_name.setdefault(name, _ResamplingHelper(name, self._config)), source, sink\n", "C08.OWN"),
+    ("resampling helper re-bound from the coordinator", MOD,
+     "        self._resamplers[source] = resampler\n",
+     "        self._resamplers[source] = resampler\n        resampler._helper = self._spare_helper\n", "C08.OWN"),
+    ("source properties shared by all helpers", MOD,
+     "        self._source_properties: SourceProperties = SourceProperties()\n",
+     "        self._source_properties: SourceProperties = _SHARED_PROPERTIES\n", "C08.OWN"),
 ]
 
 
@@ -1010,6 +1355,7 @@ def run_rules(run: Run, prog: Program) -> None:
     check_unit(run, prog)
     check_tick(run, prog)
     check_sink(run, prog)
+    check_own(run, prog)
 
 
 def check(run: Run, prog: Program, tier: str) -> str:
@@ -1028,7 +1374,11 @@ def check(run: Run, prog: Program, tier: str) -> str:
              "to whole seconds, in the resampling module")
     run.rule("C08.SINK", "on every path of the per-series tick (normal, raising, handler) the sink is handed exactly the "
              "helper's sample for T, at most once; no other function of the module calls a sink")
+    run.rule("C08.OWN", "every streaming helper is constructed with a resampling helper made for this registration (one "
+             "construction each, kept nowhere but under the source it is registered with); the helper's constructor creates "
+             "an empty buffer and new source properties; helper / buffer / properties are never re-bound from outside")
     run_rules(run, prog)
+    run.floor("C08.OWN", 4)
     run.floor("C08.SINK", 1)
     run.floor("C08.FRESH", 2)
     run.floor("C08.UNIT", 4)
